@@ -59,7 +59,7 @@ INT_FORMS = ["({I} + {I})", "({I} // 3 + {I})", "({I} - {I} * {I})", "({I} if {B
              # a variable read before a later `:=` rebinds it in the same expression (defect repaired in b0ab4a7)
              "((w := {I}) + w + (w := {I}) + w)",
              # two operands that are built early, the first with a call outside its hoisted part (seeded C05_m_n)
-             "(((w := {I}) + {I}) * (({I} if {B} else {I}) + {I}))"]
+             "(((w := {I}) + h0(70)) * ((h0(80) if {B} else 9) + {I}))"]
 BOOL_FORMS = ["{I} < {I}", "{I} < {I} < {I}", "{I} <= {I} < {I} <= {I}", "({B} and {B})", "({B} or {B})",
               "({B} and {B} or {B})", "(not {B})", "({B} if {B} else {B})", "hb({I})", "{I} == {I}",
               "({B} and {I} < {I} < {I})"]
